@@ -222,3 +222,104 @@ theorem task_get_bounds_eq (permUb : Nat → Num) (vars : List VarDecl) :
     cases h2 : TaskDecl.homogeneous (List.flatMap (VarDecl.upperEntries permUb) vars) <;> simp <;> rfl
 
 end R14
+
+/-!
+## `Task.transform_solution`: refinement of the slicing of a position among the declared variables
+
+The offsets (`counter`), the slice `x[counter:counter + v.size()]`, the argument selection `temp if v.has_children() else temp[0]`, the special
+case `len(x) == 1` and the dict keyed by `v.name` are the source's, translated; `v.decode(arg)` is the model's per-class `decodeVar` (pinned, T13).
+A dict is an insertion-ordered association list: `d[k] = v` replaces in place or appends (`Py.dictSet`), so the statement needs no assumption on
+the names — with pairwise distinct names the result is one entry per declared variable, in order (`dict_of_distinct`).
+-/
+
+namespace R14
+open Py TaskDecl
+
+/-- the dict the loop builds from the model's list of decoded slices, keyed by the variables' names -/
+def keyed (name_of : VarDecl → String) (sol : List (String × Decoded)) (l : List (Nat × Decoded)) (vs : List VarDecl) : List (String × Decoded) :=
+  (l.zip vs).foldl (fun d p => Py.dictSet d (name_of p.2) p.1.2) sol
+
+theorem decode_arg_eq (v : VarDecl) (temp : List Coord) :
+    (if Src.vd_has_children v = true then pure (DArg.many temp)
+      else (do let c ← Py.getItem temp 0; pure (DArg.one c)) : Except Err DArg) = decodeArg v temp := by
+  unfold decodeArg
+  rw [vd_has_children_eq]
+  cases v.hasChildren
+  · simp only [Bool.false_eq_true, ↓reduceIte]
+    cases temp <;> rfl
+  · rfl
+
+theorem slice_nat_add (x : List Coord) (c s : Nat) : Py.slice x (c : Int) ((c : Int) + (s : Int)) = (x.drop c).take s := by
+  have : ((c : Int) + (s : Int)) = ((c + s : Nat) : Int) := by simp
+  rw [this, slice_nat, List.drop_take]
+  congr 1; omega
+
+theorem transform_loop_eq (name_of : VarDecl → String) (x : List Coord) (vs : List VarDecl) (hv : ∀ v ∈ vs, v.valid = true)
+    (idx c : Nat) (sol : List (String × Decoded)) :
+    (forIn vs ((c : Int), sol) (fun v (s : Int × List (String × Decoded)) => (do
+        let a ← decodeArg v (Py.slice x s.1 (s.1 + Src.vd_size v))
+        let d ← decodeVar v a
+        pure (ForInStep.yield (s.1 + Src.vd_size v, Py.dictSet s.2 (name_of v) d)) : Except Err (ForInStep (Int × List (String × Decoded))))))
+      = (transformLoop x vs idx c).map (fun l => ((((c + (vs.map VarDecl.size).sum : Nat)) : Int), keyed name_of sol l vs)) := by
+  induction vs generalizing idx c sol with
+  | nil => simp [transformLoop, keyed, Except.map]; rfl
+  | cons v vs ih =>
+    have hsz : Src.vd_size v = (v.size : Int) := vd_size_eq v (hv v List.mem_cons_self)
+    rw [List.forIn_cons]
+    simp only [hsz, slice_nat_add, transformLoop]
+    cases hda : decodeArg v ((x.drop c).take v.size) with
+    | error e => rfl
+    | ok a =>
+      simp only [except_ok_bind]
+      cases hd : decodeVar v a with
+      | error e => rfl
+      | ok d =>
+        simp only [except_ok_bind]
+        have hc : ((c : Int) + (v.size : Int)) = ((c + v.size : Nat) : Int) := by simp
+        have := ih (fun w hw => hv w (List.mem_cons_of_mem _ hw)) (idx + 1) (c + v.size) (Py.dictSet sol (name_of v) d)
+        rw [hc]
+        simp only [pure, Except.pure, except_ok_bind] at this ⊢
+        rw [this]
+        cases transformLoop x vs (idx + 1) (c + v.size) with
+        | error e => rfl
+        | ok rest =>
+          simp only [Except.map, except_ok_bind, keyed, List.zip_cons_cons, List.foldl_cons, List.map_cons, List.sum_cons]
+          congr 2
+          omega
+
+/-- **`Task.transform_solution`** as the source reads now is the model's `transformSolution`, entry for entry, keyed by the variables' names -/
+theorem task_transform_solution_eq (name_of : VarDecl → String) (vars : List VarDecl) (hv : ∀ v ∈ vars, v.valid = true) (x : List Coord) :
+    Src.task_transform_solution name_of vars x = (transformSolution ⟨vars⟩ x).map (fun l => keyed name_of [] l vars) := by
+  unfold Src.task_transform_solution transformSolution
+  simp only []
+  by_cases h1 : x.length = 1
+  · have : decide (Py.len x = 1) = true := by rw [decide_eq_true_iff]; show ((x.length : Int) = 1); omega
+    simp only [this, h1, ↓reduceIte]
+    cases vars with
+    | nil => rfl
+    | cons v vs =>
+      have hg : Py.getItem (v :: vs) 0 = .ok v := rfl
+      simp only [hg, except_ok_bind, decode_arg_eq]
+      cases decodeArg v x with
+      | error e => rfl
+      | ok a =>
+        simp only [except_ok_bind]
+        cases decodeVar v a <;> rfl
+  · have : ¬ (decide (Py.len x = 1) = true) := by rw [decide_eq_true_iff]; show ¬ ((x.length : Int) = 1); omega
+    simp only [this, h1, ↓reduceIte, decode_arg_eq]
+    have hl := transform_loop_eq name_of x vars hv 0 0 []
+    simp only [Int.natCast_zero] at hl
+    rw [hl]
+    cases transformLoop x vars 0 0 <;> rfl
+
+/-- with pairwise distinct keys, storing into the dict is appending -/
+theorem dictSet_fresh {β : Type} (d : List (String × β)) (k : String) (v : β) (h : k ∉ d.map Prod.fst) :
+    Py.dictSet d k v = d ++ [(k, v)] := by
+  induction d with
+  | nil => rfl
+  | cons p rest ih =>
+    simp only [List.map_cons, List.mem_cons, not_or] at h
+    have hne : ¬ (p.1 = k) := fun e => h.1 e.symm
+    simp only [Py.dictSet, hne, ↓reduceIte, ih h.2, List.cons_append]
+
+end R14
